@@ -76,6 +76,15 @@ pub struct SchedConfig {
     /// loops (one metadata access per cell) from eating the step budget.
     #[serde(default = "default_meta_every")]
     pub meta_every: u32,
+    /// Race-directed scheduling (needs `site::CLASS_RACE` in the mask): at an address-carrying
+    /// metadata site a thread is, with this probability per million, postponed for up to
+    /// `race_wait` steps -- until another thread arrives at a site with the same address.  Then
+    /// one of the two is let through first.  Drawn from a PRNG of its own (seeded from `seed`), in
+    /// replays too: a function of the seed and the execution so far.
+    #[serde(default)]
+    pub race_ppm: u32,
+    #[serde(default)]
+    pub race_wait: u32,
     #[serde(default)]
     pub explicit: Option<Explicit>,
 }
@@ -104,6 +113,8 @@ impl Default for SchedConfig {
             site_mask: site::CLASS_LOCK | site::CLASS_SCHED | site::CLASS_BINDING,
             max_run: default_max_run(),
             meta_every: 1,
+            race_ppm: 0,
+            race_wait: 0,
             explicit: None,
         }
     }
@@ -142,6 +153,8 @@ struct ThreadRec {
     /// Spin hints of the forwarding-word wait loop since this thread last started or finished a
     /// work packet (a waiter that never gets out is a livelock).
     fwd_spins: u64,
+    /// Race-directed scheduling: the address this thread is postponed in front of.
+    postponed: Option<usize>,
 }
 
 #[derive(Default, Clone, Debug, Serialize, Deserialize)]
@@ -163,6 +176,12 @@ pub struct SchedStats {
     pub switch_hash: u64,
     pub rng_draws: u64,
     pub site_counts: BTreeMap<u32, u64>,
+    /// Race-directed scheduling: threads postponed in front of an address / postponed threads
+    /// that another thread met at the same address.
+    #[serde(default)]
+    pub race_postpones: u64,
+    #[serde(default)]
+    pub race_meets: u64,
 }
 
 struct State {
@@ -171,6 +190,9 @@ struct State {
     current: usize,
     rng: Rng,
     clock_rng: Rng,
+    race_rng: Rng,
+    race_budget: u32,
+    race_stall_left: u64,
     step: u64,
     progress: u64,
     decision_idx: u64,
@@ -266,10 +288,14 @@ pub fn init(cfg: SchedConfig, obs: &'static dyn Observer) {
             switches_in: 0,
             cand_since: None,
             fwd_spins: 0,
+            postponed: None,
         }],
         current: 0,
         rng,
         clock_rng,
+        race_rng: Rng::new(cfg.seed ^ 0x5ACE_5ACE_0BAD_F00D),
+        race_budget: 4000,
+        race_stall_left: 600_000,
         step: 0,
         progress: 1,
         decision_idx: 0,
@@ -330,6 +356,7 @@ pub fn spawn<F: FnOnce() + Send + 'static>(name: &str, f: F) -> usize {
             switches_in: 0,
             cand_since: None,
             fwd_spins: 0,
+            postponed: None,
         });
         st.stats.threads += 1;
     }
@@ -843,6 +870,82 @@ impl SimRuntime for Rt {
             if st.meta_ctr % st.cfg.meta_every.max(1) as u64 != 0 {
                 return;
             }
+        }
+        st.progress += 1;
+        s.reschedule(st, me, site_id, false);
+    }
+
+    fn yield_point_at(&self, site_id: u32, addr: usize) {
+        let me = current_tid();
+        if me == NO_TID || in_fatal() {
+            return;
+        }
+        if crate::world::WORLD_HELD.load(Ordering::SeqCst) != 0 {
+            return;
+        }
+        let s = sched();
+        let mut st = s.st.lock().unwrap();
+        if st.cfg.race_ppm == 0 || st.step >= st.cfg.fair_after_step {
+            drop(st);
+            if site::class_of(site_id) != site::CLASS_RACE {
+                self.yield_point(site_id);
+            }
+            return;
+        }
+        let step = st.step;
+        // (1) is another thread postponed in front of this address?
+        let mut met = None;
+        for t in 0..st.threads.len() {
+            if t != me && st.threads[t].postponed == Some(addr) {
+                if st.threads[t].stalled_until > step {
+                    met = Some(t);
+                } else {
+                    st.threads[t].postponed = None;
+                }
+            }
+        }
+        if let Some(t) = met {
+            st.threads[t].postponed = None;
+            st.stats.race_meets += 1;
+            *st.stats.faults_fired.entry("race_meet".to_string()).or_insert(0) += 1;
+            // one of the two goes first and gets a few steps to finish its access
+            let lead = st.race_rng.range(2, 40);
+            if st.race_rng.chance(1, 2) {
+                st.threads[t].stalled_until = step + lead;
+            } else {
+                st.threads[t].stalled_until = 0;
+                st.threads[me].stalled_until = step + lead;
+            }
+            fnv_u64(&mut st.stats.trace_hash, 0x5ACE ^ ((t as u64) << 48) ^ addr as u64);
+            st.progress += 1;
+            s.reschedule(st, me, site_id, false);
+            return;
+        }
+        // (2) postpone this thread here?
+        if st.race_budget > 0
+            && st.race_stall_left > 0
+            && st.threads.len() > 1
+            && st.race_rng.below(1_000_000) < st.cfg.race_ppm as u64
+        {
+            st.race_budget -= 1;
+            let wmax = st.cfg.race_wait.max(21) as u64;
+            let wait = st.race_rng.range(20, wmax);
+            st.race_stall_left = st.race_stall_left.saturating_sub(wait);
+            st.threads[me].postponed = Some(addr);
+            st.threads[me].stalled_until = step + wait;
+            st.stats.race_postpones += 1;
+            *st.stats.faults_fired.entry("race_postpone".to_string()).or_insert(0) += 1;
+            st.progress += 1;
+            s.reschedule(st, me, site_id, false);
+            return;
+        }
+        // (3) an ordinary metadata site
+        if site::class_of(site_id) == site::CLASS_RACE {
+            return;
+        }
+        st.meta_ctr += 1;
+        if st.meta_ctr % st.cfg.meta_every.max(1) as u64 != 0 {
+            return;
         }
         st.progress += 1;
         s.reschedule(st, me, site_id, false);
